@@ -1,6 +1,7 @@
 package rg
 
 import (
+	"os"
 	"fmt"
 	"go/constant"
 	"go/token"
@@ -19,9 +20,144 @@ func isIntType(t types.Type) bool {
 // derivesFromParse: value derives (locally) from strconv.ParseInt/Atoi/ParseUint.
 func derivesFromParse(v ssa.Value) bool { return derivesFromParseD(v, 0) }
 
+// fieldStoreMemo: per struct field (its *types.Var), the values stored into it anywhere in its package, and whether an
+// address of the field is handed to something else (a table of targets: {"ex": {&o.ex, &o.exval}}).
+var fieldStoreMemo = map[*types.Var]*fieldStores{}
+
+type fieldStores struct {
+	vals    []ssa.Value
+	escapes bool
+}
+
+func storesIntoField(fv *types.Var, from *ssa.Function) *fieldStores {
+	if r, ok := fieldStoreMemo[fv]; ok {
+		return r
+	}
+	r := &fieldStores{}
+	fieldStoreMemo[fv] = r
+	if from == nil || from.Pkg == nil {
+		return r
+	}
+	var fns []*ssa.Function
+	var add func(f *ssa.Function)
+	add = func(f *ssa.Function) {
+		fns = append(fns, f)
+		for _, a := range f.AnonFuncs {
+			add(a)
+		}
+	}
+	for _, m := range from.Pkg.Members {
+		switch x := m.(type) {
+		case *ssa.Function:
+			add(x)
+		case *ssa.Type:
+			for _, t := range []types.Type{x.Type(), types.NewPointer(x.Type())} {
+				ms := from.Prog.MethodSets.MethodSet(t)
+				for i := 0; i < ms.Len(); i++ {
+					if f := from.Prog.MethodValue(ms.At(i)); f != nil && f.Pkg == from.Pkg {
+						add(f)
+					}
+				}
+			}
+		}
+	}
+	seen := map[*ssa.Function]bool{}
+	for _, f := range fns {
+		if seen[f] {
+			continue
+		}
+		seen[f] = true
+		for _, b := range f.Blocks {
+			for _, in := range b.Instrs {
+				fa, ok := in.(*ssa.FieldAddr)
+				if !ok || fa.Referrers() == nil {
+					continue
+				}
+				st, ok := fa.X.Type().Underlying().(*types.Pointer)
+				if !ok {
+					continue
+				}
+				str, ok := st.Elem().Underlying().(*types.Struct)
+				if !ok || fa.Field >= str.NumFields() || str.Field(fa.Field) != fv {
+					continue
+				}
+				for _, rr := range *fa.Referrers() {
+					switch y := rr.(type) {
+					case *ssa.Store:
+						if y.Addr == ssa.Value(fa) {
+							r.vals = append(r.vals, y.Val)
+						} else {
+							r.escapes = true
+						}
+					case *ssa.UnOp, *ssa.DebugRef:
+					default:
+						r.escapes = true
+					}
+				}
+			}
+		}
+	}
+	return r
+}
+
 func derivesFromParseD(v ssa.Value, depth int) bool {
 	found := false
+	// a number kept in a field of an options record: parsed if something parsed is stored into that field somewhere in
+	// the package, or if the field's address is handed out (a table of option targets) and the function that fills
+	// through such addresses parses
+	viaField := func(fv *types.Var, from *ssa.Function) bool {
+		if depth >= 2 || !isIntType(fv.Type()) {
+			return false
+		}
+		fs := storesIntoField(fv, from)
+		for _, sv := range fs.vals {
+			if derivesFromParseD(sv, depth+1) {
+				return true
+			}
+		}
+		return fs.escapes
+	}
 	backslice(v, func(x ssa.Value) bool {
+		switch y := x.(type) {
+		case *ssa.UnOp:
+			if fa, ok := y.X.(*ssa.FieldAddr); ok && y.Op == token.MUL {
+				if pt, ok := fa.X.Type().Underlying().(*types.Pointer); ok {
+					if str, ok := pt.Elem().Underlying().(*types.Struct); ok && fa.Field < str.NumFields() && firstPartyType(pt.Elem()) {
+						if viaField(str.Field(fa.Field), y.Parent()) {
+							found = true
+						}
+					}
+				}
+			}
+			// a local whose address sits in a table of option targets ({"ex": {&ex, &exval}}) and is filled through it by
+			// a function that parses
+			if al, ok := y.X.(*ssa.Alloc); ok && y.Op == token.MUL && isIntType(y.Type()) && al.Referrers() != nil && depth < 2 {
+				escapes := false
+				for _, r := range *al.Referrers() {
+					switch z := r.(type) {
+					case *ssa.Store:
+						if z.Addr != ssa.Value(al) {
+							escapes = true
+						}
+					case *ssa.UnOp, *ssa.DebugRef:
+					default:
+						escapes = true
+					}
+				}
+				if escapes && parsesSomewhere(y.Parent()) {
+					found = true
+				}
+			}
+		case *ssa.Field:
+			if str, ok := y.X.Type().Underlying().(*types.Struct); ok && y.Field < str.NumFields() && firstPartyType(y.X.Type()) {
+				if viaField(str.Field(y.Field), y.Parent()) {
+					found = true
+				}
+			}
+		}
+		if found {
+			return false
+		}
 		if call, ok := x.(*ssa.Call); ok {
 			if cf := call.Call.StaticCallee(); cf != nil && cf.Pkg != nil && cf.Pkg.Pkg.Path() == "strconv" &&
 				(cf.Name() == "ParseInt" || cf.Name() == "Atoi" || cf.Name() == "ParseUint") {
@@ -295,3 +431,136 @@ var rR19 = RuleRef{Name: "R19", Doc: "checked arithmetic: every integer +/-/nega
 	c.Count("R19_stored_integer_updates", n)
 	c.Min("R19_stored_integer_updates", 5)
 }}
+
+// R19w: arithmetic on client integers does not wrap.
+var rR19w = RuleRef{Name: "R19w", Doc: "no wrap-around on client integers: an integer addition or subtraction in the command layer one of whose operands derives from a number parsed out of the client's text is shown not to overflow -- for x+y either an operand is known non-positive or both are bounded above, and either an operand is known non-negative or both are bounded below (x-y likewise with y's sign turned); `end++` on a raw parsed index turns MaxInt64 into MinInt64 and the range checks that follow accept what they should clamp. Updates of stored numbers are R19's", Run: func(c *C) {
+	n := 0
+	const big = int64(1) << 62
+	for _, fn := range c.P.allFuncs("memdb") {
+		var pr *bprover
+		ord := map[string]int{}
+		for _, b := range fn.Blocks {
+			for _, in := range b.Instrs {
+				x, ok := in.(*ssa.BinOp)
+				if !ok || (x.Op != token.ADD && x.Op != token.SUB) || !isSignedInt(x.Type()) || intWidth(x.Type()) < 64 {
+					continue
+				}
+				if !derivesFromParse(x.X) && !derivesFromParse(x.Y) {
+					continue
+				}
+				if flowsToFormat(x) {
+					continue // R19
+				}
+				// MaxInt64 - n, MinInt64 + n: the bound of an overflow guard; it cannot wrap for the sign the guard is for,
+				// and whether the guard is the right one is R19's question
+				if h, l := bigConst(x.X); h || l {
+					continue
+				}
+				if h, l := bigConst(x.Y); h || l {
+					continue
+				}
+				n++
+				if pr == nil {
+					pr = c.newProver(fn)
+				}
+				zero := lt{"0", 0}
+				// a quotient by a constant of at least four is within 2^62 whatever was divided
+				small := func(v ssa.Value) bool {
+					for {
+						if cv, ok := v.(*ssa.Convert); ok && isSignedInt(cv.X.Type()) {
+							v = cv.X
+							continue
+						}
+						break
+					}
+					if q, ok := v.(*ssa.BinOp); ok && q.Op == token.QUO {
+						if k, ok := constInt(q.Y); ok && (k >= 4 || k <= -4) {
+							return true
+						}
+					}
+					return false
+				}
+				le0 := func(v ssa.Value) bool { return pr.ProveLE(pr.lin(v), zero, 0, x) }
+				ge0 := func(v ssa.Value) bool { return clockValue(v) || pr.ProveLE(zero, pr.lin(v), 0, x) }
+				leBig := func(v ssa.Value) bool { return small(v) || clockValue(v) || pr.ProveLE(pr.lin(v), zero, big, x) }
+				geBig := func(v ssa.Value) bool { return small(v) || clockValue(v) || pr.ProveLE(zero, pr.lin(v), big, x) }
+				var okHi, okLo bool
+				if x.Op == token.ADD {
+					okHi = le0(x.X) || le0(x.Y) || (leBig(x.X) && leBig(x.Y))
+					okLo = ge0(x.X) || ge0(x.Y) || (geBig(x.X) && geBig(x.Y))
+				} else {
+					// x - y: wraps upward when x large and y very negative, downward when x very negative and y large
+					okHi = le0(x.X) || ge0(x.Y) || (leBig(x.X) && geBig(x.Y))
+					okLo = ge0(x.X) || le0(x.Y) || (geBig(x.X) && leBig(x.Y))
+				}
+				con := "integer " + x.Op.String() + " on a parsed client integer does not wrap"
+				ord[con]++
+				if ord[con] > 1 {
+					con = fmt.Sprintf("%s#%d", con, ord[con])
+				}
+				if os.Getenv("RG_DBG_R19W") != "" {
+					fmt.Fprintf(os.Stderr, "R19w %s %s hi=%v lo=%v le0X=%v le0Y=%v bigX=%v bigY=%v smallY=%v linY=%v absurd=%v\n", fnName(fn), c.pos(x.Pos()), okHi, okLo, le0(x.X), le0(x.Y), leBig(x.X), leBig(x.Y), small(x.Y), pr.lin(x.Y), pr.ProveLE(zero, zero, -1, x))
+				}
+				c.Add("R19w", fnName(fn), con, x.Pos(), okHi && okLo, fmt.Sprintf("%s: no upward wrap shown=%v, no downward wrap shown=%v", siteExprBin(x), okHi, okLo))
+			}
+		}
+	}
+	c.Count("R19w_client_integer_sums", n)
+	c.Min("R19w_client_integer_sums", 3)
+}}
+
+func siteExprBin(x *ssa.BinOp) string {
+	return fmt.Sprintf("%s %s %s", x.X.Name(), x.Op.String(), x.Y.Name())
+}
+
+// clockValue: the current unix time in seconds or milliseconds (time.Now().Unix(), UnixMilli()): far inside 2^62.
+func clockValue(v ssa.Value) bool {
+	call, ok := v.(*ssa.Call)
+	if !ok {
+		return false
+	}
+	cf := call.Call.StaticCallee()
+	if cf == nil || cf.Pkg == nil || cf.Pkg.Pkg.Path() != "time" {
+		return false
+	}
+	switch cf.Name() {
+	case "Unix", "UnixMilli":
+		return cf.Signature.Recv() != nil
+	}
+	return false
+}
+
+// firstPartyType: a named type declared in the repository's own packages.
+func firstPartyType(t types.Type) bool {
+	n, ok := t.(*types.Named)
+	if !ok {
+		if a, isAlias := t.(*types.Alias); isAlias {
+			n, ok = types.Unalias(a).(*types.Named)
+		}
+		if !ok {
+			return false
+		}
+	}
+	return n.Obj() != nil && n.Obj().Pkg() != nil && strings.HasPrefix(n.Obj().Pkg().Path(), ModPath)
+}
+
+// parsesSomewhere: fn (or a closure of it) calls strconv.ParseInt/Atoi/ParseUint.
+func parsesSomewhere(fn *ssa.Function) bool {
+	if fn == nil {
+		return false
+	}
+	fns := []*ssa.Function{fn}
+	fns = append(fns, fn.AnonFuncs...)
+	for _, f := range fns {
+		for _, b := range f.Blocks {
+			for _, in := range b.Instrs {
+				if call, ok := in.(*ssa.Call); ok {
+					if cf := call.Call.StaticCallee(); cf != nil && cf.Pkg != nil && cf.Pkg.Pkg.Path() == "strconv" && (cf.Name() == "ParseInt" || cf.Name() == "Atoi" || cf.Name() == "ParseUint") {
+						return true
+					}
+				}
+			}
+		}
+	}
+	return false
+}
